@@ -35,7 +35,7 @@ RULE = (
     "every state: full table + constraint_current for every ordered subset of names x time-index subsets; non-trivial = state with >=2 constraints of which one has mixed-sign or fractional coefficients"
 )
 ASSUMPTIONS = [
-    "stations A,B,C(,D) with distinct phase angles/voltages; expression alphabet of 20 shapes; limits are functions of the operation (finite state space)",
+    "stations A,B,C(,D) with distinct phase angles/voltages; expression alphabet of 22 shapes (builtin and numpy scalars); limits are functions of the operation (finite state space)",
     "time_indices are given in ascending order (for those 'as requested' and 'network order' coincide); constraint names at most one duplicate deep (documented _v2 rule)",
     "registering an EVSE after ALL constraints were removed again is left unspecified by the property: refusal and acceptance are both allowed, the state must stay consistent",
     "bounded depth; canonical state merges operation sequences leading to equal (station order, rows): the network's future depends on nothing else",
@@ -72,7 +72,21 @@ EXPRS = [
     ["sub", D2, D2],
     ["add", ["lmul", 0.25, ["sub", A, BC]], ["rmul", D1, 0.25]],
     ["sub", ["rmul", CA, 3], ["lmul", 0.5, D2]],
+    # scalars that are not builtin numbers (taken out of numpy arrays)
+    ["sub", ["lmul", {"np": "int64", "v": 2}, BC], A],
+    ["add", A, ["rmul", BC, {"np": "float64", "v": 0.25}]],
 ]
+
+
+def scalar(k):
+    """builtin number, or a numpy scalar described as {"np": dtype, "v": value} (JSON-able alphabet)"""
+    if isinstance(k, dict):
+        return getattr(np, k["np"])(k["v"])
+    return k
+
+
+def scalar_value(k):
+    return float(k["v"]) if isinstance(k, dict) else k
 REDUCED = [0, 6, 12, 14, 3]  # reduced alphabet for the deepest level
 WITH_D = ["atom", "dict", {"D": 1, "A": -1}]
 
@@ -90,9 +104,9 @@ def ev_real(e):
     if k == "sub":
         return ev_real(e[1]) - ev_real(e[2])
     if k == "lmul":
-        return e[1] * ev_real(e[2])
+        return scalar(e[1]) * ev_real(e[2])
     if k == "rmul":
-        return ev_real(e[1]) * e[2]
+        return ev_real(e[1]) * scalar(e[2])
     raise ValueError(e)
 
 
@@ -112,9 +126,9 @@ def ev_model(e):
             out[s] = out.get(s, 0.0) + sg * c
         return out
     if k == "lmul":
-        return {s: e[1] * c for s, c in ev_model(e[2]).items()}
+        return {s: scalar_value(e[1]) * c for s, c in ev_model(e[2]).items()}
     if k == "rmul":
-        return {s: e[2] * c for s, c in ev_model(e[1]).items()}
+        return {s: scalar_value(e[2]) * c for s, c in ev_model(e[1]).items()}
     raise ValueError(e)
 
 
@@ -126,8 +140,8 @@ def shape(e):
     if k in ("add", "sub"):
         return "(%s%s%s)" % (shape(e[1]), "+" if k == "add" else "-", shape(e[2]))
     if k == "lmul":
-        return "k*%s" % shape(e[2])
-    return "%s*k" % shape(e[1])
+        return "%s*%s" % ("npk" if isinstance(e[1], dict) else "k", shape(e[2]))
+    return "%s*%s" % (shape(e[1]), "npk" if isinstance(e[2], dict) else "k")
 
 
 # ----------------------------------------------------------------------------
